@@ -6,22 +6,22 @@ D=$(cd "$1" && pwd)
 export GOFLAGS=-mod=mod GOPROXY=off
 W=$(mktemp -d /tmp/seedchk.XXXXXX); rmdir "$W"
 git -C /repo worktree add --detach "$W" HEAD -q || exit 2
-cleanup() { git -C /repo worktree remove --force "$W" 2>/dev/null; rm -rf "$W"; }
+cleanup() { git -C /repo worktree remove --force "$W" 2>/dev/null; rm -rf "$W"; [ -n "${KEEP_LOGS:-}" ] || rm -f "$W".*.log; }
 trap cleanup EXIT
 demo_path=$(python3 -c "import json,sys; print(json.load(open('$D/meta.json'))['demo_path'])")
 demo_cmd=$(python3 -c "import json,sys; print(json.load(open('$D/meta.json'))['demo_cmd'])")
-demo_file=$(ls "$D" | grep -v 'patch.diff\|meta.json\|NOTES' | head -1)
+demo_file=$(ls "$D" | grep -v 'patch.diff\|meta.json\|NOTES\|notes.txt\|detection.json\|confirm.txt' | head -1)
 mkdir -p "$W/$(dirname "$demo_path")"
 cp "$D/$demo_file" "$W/$demo_path"
 cd "$W"
 # 1. demo passes on clean code
-sh -c "$demo_cmd" > /tmp/seedchk.clean.log 2>&1; clean_rc=$?
+sh -c "$demo_cmd" > $W.clean.log 2>&1; clean_rc=$?
 # 2. apply the change
 git apply "$D/patch.diff" || { echo "RESULT $D apply-failed"; exit 1; }
-go build ./... > /tmp/seedchk.build.log 2>&1; build_rc=$?
-sh -c "$demo_cmd" > /tmp/seedchk.mut.log 2>&1; mut_rc=$?
+go build ./... > $W.build.log 2>&1; build_rc=$?
+sh -c "$demo_cmd" > $W.mut.log 2>&1; mut_rc=$?
 # 3. the existing suite (without the demo file) must still pass with the change
 rm -f "$W/$demo_path"
-go test -vet=off -count=1 ./... > /tmp/seedchk.suite.log 2>&1; suite_rc=$?
+go test -vet=off -count=1 ./... > $W.suite.log 2>&1; suite_rc=$?
 echo "RESULT $D demo_clean_rc=$clean_rc build_rc=$build_rc demo_mutant_rc=$mut_rc suite_rc=$suite_rc"
 [ $clean_rc -eq 0 ] && [ $build_rc -eq 0 ] && [ $mut_rc -ne 0 ] && [ $suite_rc -eq 0 ]
